@@ -353,6 +353,31 @@ def run_case(item, route: str, v: Any, names: List[str], assign: tuple, r: commo
         r.violation({"kind": "entry_raises", "route": route, "type": t, "input": icls}, f"{label} entering the value raised {esc}", case)
         return
     check_state(inst, item, label, r, case, icls, route)
+    if route == "set_value":
+        live_steps(inst, item, label, r, case, icls, route, names, assign)
+
+
+def live_steps(inst, item, label: str, r: common.Result, case: dict, icls: str, route: str, names: List[str], assign: tuple) -> None:
+    """the same instance, every value already read once: change ONE condition / bound / source option and look again
+    (an emitted value must be inside the range that applies NOW, not the one that applied when it was first computed)"""
+    for n, a in zip(names, assign):
+        for a2 in item["dom"][n]:
+            if a2 == a:
+                continue
+            twin = impl.Inst(item["files"])
+            for nm, av in zip(names, assign):
+                if av is not None:
+                    twin.k.syms[nm].set_value(av)
+            if case.get("route") is not None:
+                enter(twin, item["type"], route, case["value"] if not (isinstance(case["value"], str) and case["value"] in ("inf", "nan", "-inf") and route == "server") else float(case["value"]), r)
+            for s_ in twin.k.unique_defined_syms:
+                s_.str_value  # everything evaluated once
+            if a2 is None:
+                twin.k.syms[n].unset_value()
+            else:
+                twin.k.syms[n].set_value(a2)
+            r.evals += 1
+            check_state(twin, item, f"{label} then {n}<-{a2!r}", r, dict(case, then=[n, a2]), icls, route + "+live")
 
 
 def run_item(item) -> common.Result:
@@ -371,6 +396,8 @@ def run_item(item) -> common.Result:
         r.evals += 1
         check_state(inst, item, f"[{t} {item['shape']} no-input {dict((n_, a) for n_, a in zip(names, assign) if a is not None)}]", r,
                     {"item": {k: item[k] for k in ("type", "shape", "files", "dom", "ref_ranges")}, "route": None, "value": None, "names": names, "assign": list(assign)}, "none", "none")
+        live_steps(inst, item, f"[{t} {item['shape']} no-input {dict((n_, a) for n_, a in zip(names, assign) if a is not None)}]", r,
+                   {"item": {k: item[k] for k in ("type", "shape", "files", "dom", "ref_ranges")}, "route": None, "value": None, "names": names, "assign": list(assign)}, "none", "none", names, assign)
         for v in ALPHA[t]:
             for route in ("set_value", "sdkconfig"):
                 run_case(item, route, v, names, assign, r)
@@ -385,6 +412,11 @@ def run_item(item) -> common.Result:
 def replay(case) -> List[dict]:
     r = common.Result()
     item = case["item"]
+    if case.get("then"):
+        base = {k: v for k, v in case.items() if k != "then"}
+        inst = impl.Inst(item["files"])
+        live_steps(inst, item, "[replay]", r, base, input_class(item["type"], case["value"]) if case["route"] else "none", case["route"] or "none", case["names"], tuple(case["assign"]))
+        return [v for v in r.viols if v["case"].get("then") == case["then"]] or r.viols
     if case["route"] is None:
         inst = impl.Inst(item["files"])
         for nm, a in zip(case["names"], case["assign"]):
